@@ -13,8 +13,8 @@ import (
 	"strconv"
 	"strings"
 	"sync"
-	"syscall"
 	"sync/atomic"
+	"syscall"
 	"testing"
 	"time"
 
@@ -740,7 +740,6 @@ func c13Channel(run *rt.Run, r *rt.Rand) {
 	_ = io.EOF
 }
 
-
 // c13ChannelQueued: the bound on a Process call is its own ("the shorter of the timeout and the context"), whatever
 // other calls on the same sink are doing. Call A (live context, 1 h timeout, no room in the channel) may wait; call
 // B arrives while A waits, with a context that is already done or ends within milliseconds, and must return - it
@@ -812,7 +811,6 @@ func c13ChannelQueued(run *rt.Run, r *rt.Rand) {
 		run.Eval(fmt.Sprintf("queued|%d|%d|%s", capn, nA, bKind))
 	}
 }
-
 
 // c13WriterRaw: what is stored under a format is a byte string, not a line: it may lack a trailing newline, be
 // binary, or be a window into a buffer that also holds the value of another format. A sink writes exactly those
